@@ -182,6 +182,8 @@ def gen_prop(rng, tier):
         c['ampscale'] = rng.choice(AMPSCALES)
     elif t3 < 0.27:                 # the amplitude handed over as an ndarray subclass / another layout with the same data
         c['container'] = rng.choice(CONTAINERS)
+    if rng.random() < 0.15:         # shape / prop_shape / oversample as small-width numpy integers
+        c['intdtype'] = rng.choice(['uint8', 'int8', 'uint16', 'int16', 'uint32'])
     if rng.random() < 0.2:          # second leg: image plane back to a pupil plane over one period
         c['relay'] = True
     if rng.random() < 0.3:          # a segmented pupil: one Field per segment, cropped to the segment's bounding box
@@ -564,7 +566,7 @@ def classify(c):
         return 'prop/os%d/%s/%s%s' % (c['os'], c['aniso'], 'norm' if c.get('power') else 'raw',
                                       '/history' if c.get('between') else '') + ('/segmented' if c.get('seg') else '') \
             + ('/scaled' if c.get('ampscale') else '') + ('/' + c['container'] if c.get('container') else '') \
-            + ('/relay' if c.get('relay') else '')
+            + ('/relay' if c.get('relay') else '') + ('/' + c['intdtype'] if c.get('intdtype') else '')
     return c['op'] + ('/' + c['dtype'] if c.get('dtype') else '') + ('/finite?' + c['checked'] if c.get('checked') else '')
 
 
@@ -931,6 +933,30 @@ def oracle_planehist(c, impl):
 
 
 def run_impl(c):
+    """every case runs under one of the caller-side numpy error states (default / raise / ignore), chosen from the case's
+    content, with numeric warnings turned into errors; the library must neither depend on it nor change it (the calls
+    whose result is deliberately not finite keep the default state)"""
+    import warnings
+    mode = ['default', 'raise', 'ignore'][int(C.case_hash({k: v for k, v in c.items() if not k.startswith('_')})[:2], 16) % 3]
+    if c.get('checked'):
+        mode = 'default'
+    before = np.geterr()
+    with warnings.catch_warnings():
+        if mode != 'default':
+            warnings.simplefilter('error', RuntimeWarning)
+            warnings.simplefilter('error', np.ComplexWarning)
+        with (np.errstate(over=mode, invalid=mode, divide=mode) if mode != 'default' else np.errstate()):
+            inside = np.geterr()
+            res = run_impl_inner(c)
+            changed = np.geterr() != inside
+    if isinstance(res, dict):
+        if changed or np.geterr() != before:
+            res['errstate_changed'] = True
+        res['errmode'] = mode
+    return res
+
+
+def run_impl_inner(c):
     lentil = C.import_lentil()
     fresh_state(lentil)
     if c['op'] == 'segtilt':
@@ -1035,20 +1061,34 @@ def fresh_state(lentil):
                     v.clear()
 
 
+def int_args(c, s, os_):
+    """shape / prop_shape / oversample as plain ints or as small-width numpy integers (the arithmetic must not wrap)"""
+    dt = c.get('intdtype')
+    if not dt:
+        return s, tuple(c['npix']), os_
+    t = getattr(np, dt)
+    return np.array(s).astype(t), np.array(c['npix']).astype(t), t(os_)
+
+
 def window_energies(lentil, c, w, fdu, os_):
     res = {'dft': [], 'dft_prop': [], 'fft': [], 'shapes': [], 'min': 0.0}
     mn = 0.0
+    held = []
     for s in c['wins']:
         s = (int(s[0]), int(s[1]))
-        i1 = lentil.propagate_dft(w, pixelscale=fdu, shape=s, oversample=os_).intensity
-        i2 = lentil.propagate_dft(w, pixelscale=fdu, shape=tuple(c['npix']), prop_shape=s, oversample=os_).intensity
-        i3 = lentil.propagate_fft(w, pixelscale=fdu, shape=s, oversample=os_).intensity
+        s_arg, full_arg, os_arg = int_args(c, s, os_)
+        i1 = lentil.propagate_dft(w, pixelscale=fdu, shape=s_arg, oversample=os_arg).intensity
+        i2 = lentil.propagate_dft(w, pixelscale=fdu, shape=full_arg, prop_shape=s_arg, oversample=os_arg).intensity
+        i3 = lentil.propagate_fft(w, pixelscale=fdu, shape=s_arg, oversample=os_arg).intensity
+        held += [(i1, np.array(i1, copy=True)), (i2, np.array(i2, copy=True)), (i3, np.array(i3, copy=True))]
         res['dft'].append(float(np.sum(i1)))
         res['dft_prop'].append(float(np.sum(i2)))
         res['fft'].append(float(np.sum(i3)))
         res['shapes'].append([list(i1.shape), list(i2.shape), list(i3.shape)])
         mn = min(mn, float(np.min(i1)), float(np.min(i2)), float(np.min(i3)))
     res['min'] = mn
+    if any(not np.array_equal(a, snap) for a, snap in held):   # an image must not be a view of memory a later call writes to
+        res['held_changed'] = True
     return res
 
 
@@ -1183,6 +1223,10 @@ def compare(c, impl, model):
 
 # ------------------------------------------------------------------ direct oracle: energy predicates on the implementation
 def oracle(c, impl):
+    if impl.get('errstate_changed'):
+        return 'the call changed the caller\'s numpy error state (np.geterr() before != after)'
+    if impl.get('held_changed') or (isinstance(impl.get('after'), dict) and impl['after'].get('held_changed')):
+        return 'an image returned by an earlier propagation was changed by a later one (the result is a view of shared memory)'
     if 'err' in impl:
         return f'{c["op"]} raised {impl["err"]}: {impl.get("msg", "")}'
     if c['op'] == 'ffthist':
